@@ -1,6 +1,6 @@
 """Token: C09, C10 (Token.tla / TokenMath.tla / TokenTrace.tla / harness/cmd/token,
 harness/evmledger)."""
-from props import ModuleCheck, T
+from props import ModuleCheck, T, bundled
 
 TOKEN_CLAUSES_C09 = ["C09_Identity", "C09_Authority", "C09_Cap", "C09_Burned", "C09_Fee",
                      "C09_ScaleExact", "Rejected_NoEffect"]
@@ -28,6 +28,8 @@ KSCALES = ["1073741827", "4503599627370497", "2305843009213693953", "46116860184
 # random histories draw their own configuration (tax, ratios, swap ratio, fees);
 # every history mixes all message types, the pure function included
 TOKEN_RND = T([dict(n=10, len=30, procs=8)], [dict(n=60, len=40, procs=12)])
+# multi-message transactions (runs of one signer's messages delivered as one real transaction)
+bundled(TOKEN_RND)
 
 C09_MC = T([dict(cfg="MC_Token.cfg", timeout=900, heap="4g"), dict(cfg="MC_TokenId.cfg", timeout=900, heap="4g")],
            [dict(cfg="MC_Token_big.cfg", timeout=3000, heap="4g"), dict(cfg="MC_TokenId.cfg", timeout=900, heap="4g")])
@@ -76,7 +78,7 @@ C10_SCN = [dict(file="scenarios/token_F6.ndjson", cfg="users=3,stake=40," + BASE
 # histories recorded (VERIF_RECORD_DIR) for the cross-module checks C11 / C12; the
 # random driver draws its own configuration; while recording it neither injects the
 # swap registry nor runs hook events (neither is part of the recorded inputs)
-RECORD = [dict(binary="token", n=T(3, 12), len=30, cfg="")]
+RECORD = [dict(binary="token", n=T(3, 12), len=30, cfg="bundle=30")]
 
 ASSUME = ["TLC 1.8, SANY, CommunityModules Json", "Go toolchain, cosmos-sdk x/bank, x/auth",
           "harness projection functions", "harness EVM ledger (harness/evmledger) standing in for an EVM module",
